@@ -33,6 +33,7 @@ THEOREMS = [
     'C02.World.sysDvect_current', 'C02.World.sysDvect_history', 'C02.World.pbcEdit_read',
     'C02.World.boxVects_shared', 'C02.World.sysBoxSet_shared', 'C02.World.arrDmag2_history',
     'C02.World.disp_history',
+    'C02.dvect_direct_of_short', 'C02.dispWith_direct_of_short', 'C02.dmag2_nonneg', 'C02.dvect_periodic_copy',
 ]
 PARTIAL = {}
 RULE = ('cells: diagonal, rotated/left-handed mutually orthogonal, LAMMPS-triclinic, general 3x3 (det != 0), strongly '
@@ -73,7 +74,8 @@ ORTHO_BASES = [
     [[2, 3, 6], [3, -6, 2], [6, 2, -3]],
     [[0, 0, 1], [1, 0, 0], [0, 1, 0]],
 ]
-CELL_KINDS = ['diag', 'ortho_rot', 'lammps', 'general', 'strong']
+CELL_KINDS = ['diag', 'ortho_rot', 'lammps', 'general', 'strong', 'sheared']
+SHEAR_FACTORS = [-2.5, -2.0, -1.5, -1.25, -1.125, -1.0, -0.875, -0.75, 0.75, 0.875, 1.0, 1.125, 1.25, 1.5, 2.0, 2.5, 0.0, 0.25]
 
 
 # ----------------------------------------------------------------------------------------
@@ -105,6 +107,19 @@ def gen_cell(rng, kind):
             lx, ly, lz = e(0.5, 4), e(0.5, 4), e(0.5, 4)
             v = [[lx, 0.0, 0.0], [e(-3, 3) * lx, ly, 0.0], [e(-3, 3) * lx, e(-3, 3) * ly, lz]]
             v = [[round(x * 8) / 8.0 for x in r] for r in v]
+        elif kind == 'sheared':
+            # a NON-reduced description of a lattice: tilt factors near whole numbers, so that lattice combinations such as
+            # a+b or c-a-b are shorter than every edge; optionally with the axes permuted / mirrored
+            lx, ly, lz = e(0.5, 5), e(0.5, 5), e(0.5, 5)
+            t = [rng.choice(SHEAR_FACTORS) for _ in range(3)]
+            v = [[lx, 0.0, 0.0], [t[0] * lx, ly, 0.0], [t[1] * lx, t[2] * ly, lz]]
+            v = [[round(x * 8) / 8.0 for x in r] for r in v]
+            if rng.random() < 0.4:
+                perm = rng.sample(range(3), 3)
+                sg = [rng.choice([-1.0, 1.0]) for _ in range(3)]
+                v = [[sg[j] * rw[perm[j]] for j in range(3)] for rw in v]
+                if rng.random() < 0.5:
+                    v = [v[i] for i in rng.sample(range(3), 3)]
         else:
             v = [[e(-8, 8) for _ in range(3)] for _ in range(3)]
         d = _det3(v)
@@ -172,6 +187,124 @@ def gen_float_cell(rng):
             return [[x * g for x in r] for r in v], [u(-5, 5) * g for _ in range(3)]
 
 
+DECIMAL_A0 = [4.05, 3.52, 3.615, 2.8665, 3.3, 5.43, 3.1652, 0.286, 2.46, 4.0782, 3.6149, 1.1, 0.7]
+DECIMAL_TILTS = [0.1, -0.2, 0.3, -0.45, 0.05, 1.0 / 3.0, -1.0 / 3.0, 0.5, -0.5, 0.0]
+DECIMAL_SHEARS = [-2.5, -1.9, -1.1, -1.0, -0.9, 0.8, 1.0, 1.2, 2.3, 2.5, 1.0 / 3.0 + 1.0, -0.7]
+DECIMAL_FAMILIES = ['diag', 'lammps', 'hex', 'general', 'sheared']
+
+
+def _matmul3(a, b):
+    return [[sum(a[i][k] * b[k][j] for k in range(3)) for j in range(3)] for i in range(3)]
+
+
+def _rand_rotation(rng):
+    def rot(ax, t):
+        c, s_ = math.cos(t), math.sin(t)
+        m = [[1.0, 0.0, 0.0], [0.0, 1.0, 0.0], [0.0, 0.0, 1.0]]
+        i, j = [(1, 2), (0, 2), (0, 1)][ax]
+        m[i][i], m[i][j], m[j][i], m[j][j] = c, -s_, s_, c
+        return m
+    r = rot(0, rng.uniform(0, 6.28))
+    r = _matmul3(r, rot(1, rng.uniform(0, 6.28)))
+    return _matmul3(r, rot(2, rng.uniform(0, 6.28)))
+
+
+def gen_decimal_cell(rng, family=None):
+    """supercells of lattice constants that are NOT exactly representable (a0 = 4.05, 3.52, ...): no product or sum of the
+    search loop is exact, so algebraically equal ways of writing a candidate's length differ by rounding."""
+    family = family or rng.choice(DECIMAL_FAMILIES)
+    g = 1.0 if rng.random() < 0.6 else 10.0 ** rng.randint(-12, 12)
+    while True:
+        a0 = rng.choice(DECIMAL_A0)
+        L = [a0 * rng.randint(1, 13) * rng.choice([1.0, 1.0, 1.633, 0.9])for _ in range(3)]
+        if family == 'diag':
+            v = [[L[0], 0.0, 0.0], [0.0, L[1], 0.0], [0.0, 0.0, L[2]]]
+        elif family == 'hex':
+            v = [[L[0], 0.0, 0.0], [rng.choice([-0.5, 0.5]) * L[0], L[0] * math.sqrt(3.0) / 2.0, 0.0], [0.0, 0.0, L[2]]]
+        else:
+            tl = DECIMAL_SHEARS if family == 'sheared' else DECIMAL_TILTS
+            t = [rng.choice(tl) if rng.random() < 0.8 else rng.uniform(-2.5, 2.5) * (1.0 if family == 'sheared' else 0.2)
+                 for _ in range(3)]
+            v = [[L[0], 0.0, 0.0], [t[0] * L[0], L[1], 0.0], [t[1] * L[0], t[2] * L[1], L[2]]]
+            if family == 'general':
+                v = _matmul3(v, _rand_rotation(rng))
+                if rng.random() < 0.3:
+                    v = [v[1], v[0], v[2]]            # left-handed
+        big = max(abs(x) for r in v for x in r)
+        if abs(_det3(v)) > 1e-3 * big ** 3 and all(x == 0.0 or abs(x) > 1e-6 * big for r in v for x in r):
+            break
+    o = [0.0, 0.0, 0.0] if rng.random() < 0.3 else [rng.choice([0.1, 0.2, 0.3, -1.7, 2.05, -0.35]) * rng.choice([1.0, a0])
+                                                    for _ in range(3)]
+    return [[x * g for x in r] for r in v], [x * g for x in o], family
+
+
+COPY_OFFSETS = [0.0, 0.0, 0.0, 'ulp', 'ulp', 1e-15, 1e-12, 1e-12, 1e-9, 1e-6, 1e-3]
+
+
+def gen_copy_pairs(rng, v, o, pbc, n):
+    """pairs in which pos_1 is a periodic COPY of pos_0 (reached through a whole non-zero shift along periodic
+    directions), exactly as the floats come out, or moved by 1 ulp / a tiny offset: the periodic distance is (almost) 0
+    although the direct separation is a whole cell vector."""
+    axes = [i for i in range(3) if pbc[i]] or [0, 1, 2]
+    p0s, p1s = [], []
+    L = max(abs(x) for r in v for x in r)
+    for _ in range(n):
+        nrep = rng.randint(1, 13)
+        rel = [rng.randint(0, nrep) / nrep if rng.random() < 0.6 else rng.uniform(0.0, 1.0) for _ in range(3)]
+        while True:
+            sh = [0, 0, 0]
+            for i in (axes if rng.random() < 0.85 else [0, 1, 2]):
+                sh[i] = rng.choice([-1, 0, 1, 1, -1])
+            if any(sh):
+                break
+        p0 = rel_to_cart(rel, v, o)
+        if rng.random() < 0.5:
+            p1 = [p0[j] + (sh[0] * v[0][j] + sh[1] * v[1][j] + sh[2] * v[2][j]) for j in range(3)]
+        else:
+            p1 = rel_to_cart([rel[i] + sh[i] for i in range(3)], v, o)
+        off = rng.choice(COPY_OFFSETS)
+        if off == 'ulp':
+            j = rng.randrange(3)
+            p1[j] = math.nextafter(p1[j], rng.choice([-math.inf, math.inf]))
+        elif off:
+            p1 = [x + off * L * rng.uniform(-1.0, 1.0) for x in p1]
+        if rng.random() < 0.5:
+            p0, p1 = p1, p0
+        p0s.append(p0)
+        p1s.append(p1)
+    return p0s, p1s
+
+
+def lattice_combos(v, pbc):
+    """the (up to 26) non-zero candidate shifts s = n.vects, n_i in {-1,0,1}, zero on non-periodic axes, shortest first."""
+    out = []
+    for nn in itertools.product(*[([-1, 0, 1] if p else [0]) for p in pbc]):
+        if any(nn):
+            sv = [nn[0] * v[0][j] + nn[1] * v[1][j] + nn[2] * v[2][j] for j in range(3)]
+            out.append((sum(x * x for x in sv), sv))
+    out.sort(key=lambda t: t[0])
+    return [sv for _, sv in out]
+
+
+AIM_FRACTIONS = [0.46875, 0.5, 0.53125, 0.5625, 0.625, 0.625, 0.75, 0.75, 0.875, 1.0, 1.0]
+
+
+def aimed_move(rng, v, pbc, grid=None):
+    """a move of an atom roughly ALONG one of the shortest lattice combinations, between half of it and all of it (so
+    that the nearest image of the moved atom is on the other side of that lattice vector), plus a little sideways.
+    grid: every coordinate a multiple of it (exact regime), or None (floats)."""
+    combos = lattice_combos(v, pbc)
+    if not combos:
+        combos = lattice_combos(v, [True, True, True])
+    sv = combos[min(int(rng.expovariate(0.7)), len(combos) - 1)]
+    t = rng.choice(AIM_FRACTIONS)
+    if grid:
+        side = [rng.choice([0, 0, 0, 1, -1, 2, -3]) * grid for _ in range(3)]
+        return [round(t * sv[j] / grid) * grid + side[j] for j in range(3)]
+    ln = math.sqrt(sum(x * x for x in sv))
+    return [(t + rng.uniform(-0.02, 0.02)) * sv[j] + rng.uniform(-0.03, 0.03) * ln for j in range(3)]
+
+
 def _shape_pair(rng):
     r = rng.random()
     m = rng.randint(2, 6)
@@ -191,7 +324,8 @@ def _shape_pair(rng):
 
 def _form(rng, n):
     """how the positions are handed over (all denote the same numbers)."""
-    forms = ['array', 'array', 'list', 'tuple', 'strided', 'fortran', 'f32', 'int', 'pyint', 'readonly']
+    forms = ['array', 'array', 'list', 'tuple', 'strided', 'fortran', 'f32', 'int', 'pyint', 'readonly', 'rowstrided',
+             'colwindow', 'reversed']
     return rng.choice(forms + ['flat', 'flat', 'flatlist'] if n == 1 else forms)
 
 
@@ -219,6 +353,16 @@ def _as_input(np, pts, form):
         big = np.full((2 * len(pts), 6), 7.5)
         big[::2, ::2] = np.array(pts, dtype=float).reshape(-1, 3)
         return big[::2, ::2]
+    if form == 'rowstrided':        # every other row of a larger array: the three coordinates of a row are adjacent in
+        big = np.full((2 * len(pts) + 1, 3), -3.25)          # memory, the rows are not (stride 48)
+        big[1::2] = np.array(pts, dtype=float).reshape(-1, 3)
+        return big[1::2]
+    if form == 'colwindow':         # three adjacent columns of a wider table (row stride 40)
+        big = np.full((len(pts), 5), 11.5)
+        big[:, 1:4] = np.array(pts, dtype=float).reshape(-1, 3)
+        return big[:, 1:4]
+    if form == 'reversed':          # a reversed view (negative row stride)
+        return np.array(pts, dtype=float).reshape(-1, 3)[::-1].copy()[::-1]
     if form == 'fortran':
         return np.asfortranarray(np.array(pts, dtype=float).reshape(-1, 3))
     if form == 'f32':
@@ -252,12 +396,26 @@ def gen_arr_case(rng, regime, big=None):
         if n0 and rng.random() < 0.1:                  # one side integer-valued (int dtype next to float dtype)
             pos0 = [[float(round(x)) for x in p] for p in pos0]
     else:
-        v, o = gen_float_cell(rng)
+        decimal = rng.random() < 0.45
+        v, o = gen_decimal_cell(rng)[:2] if decimal else gen_float_cell(rng)
         n0, n1 = _shape_pair(rng)
+        if big:
+            n0, n1 = rng.choice([(big, big), (1, big), (big, 1)])
         pt = lambda: rel_to_cart([rng.uniform(-0.5, 1.5) for _ in range(3)], v, o)
         pos0 = [pt() for _ in range(n0)]
         pos1 = [pt() for _ in range(n1)]
-        if n0 and n1 and rng.random() < 0.3:            # near ties: half a cell vector +- tiny
+        pbc_ = gen_pbc(rng)
+        if decimal and n0 and n1 and rng.random() < 0.7:    # periodic copies of each other (up to 0 / 1 ulp / tiny offsets)
+            if not any(pbc_):
+                pbc_[rng.randrange(3)] = True
+            c0, c1 = gen_copy_pairs(rng, v, o, pbc_, max(n0, n1))
+            if n0 == n1:
+                pos0, pos1 = c0, c1
+            elif n0 == 1:
+                pos0, pos1 = [c0[0]], [c1[0]] + [[c0[0][j] + (c1[i][j] - c0[i][j]) for j in range(3)] for i in range(1, n1)]
+            elif n1 == 1:
+                pos1, pos0 = [c1[0]], [c0[0]] + [[c1[0][j] - (c1[i][j] - c0[i][j]) for j in range(3)] for i in range(1, n0)]
+        if n0 and n1 and rng.random() < 0.3 and not decimal:            # near ties: half a cell vector +- tiny
             i = rng.randrange(3)
             eps = rng.choice(NEAR_TIE_EPS)
             pos1[0] = [pos0[0][j] + (0.5 + eps) * v[i][j] for j in range(3)]
@@ -265,9 +423,24 @@ def gen_arr_case(rng, regime, big=None):
             import numpy as np
             pos1 = [[float(np.float32(x)) for x in p] for p in pos1]
             f32 = True
-    return {'op': 'arr', 'regime': regime, 'vects': v, 'origin': o, 'pbc': gen_pbc(rng), 'pos0': pos0, 'pos1': pos1,
+    return {'op': 'arr', 'regime': regime, 'vects': v, 'origin': o, 'pbc': pbc_ if regime != 'exact' else gen_pbc(rng),
+            'pos0': pos0, 'pos1': pos1,
             'form0': _form(rng, n0), 'form1': 'f32' if f32 else _form(rng, n1),
             'pbcform': rng.choice(['tuple', 'list', 'array'])}
+
+
+def _gen_mask(rng, natoms):
+    r = rng.random()
+    if r < 0.15:
+        m = [False] * natoms
+        m[rng.randrange(natoms)] = True          # exactly one atom: the result is squeezed
+    elif r < 0.25:
+        m = [True] * natoms
+    elif r < 0.3:
+        m = [False] * natoms
+    else:
+        m = [rng.random() < 0.5 for _ in range(natoms)]
+    return ['M', m, rng.choice(['py', 'np', 'np'])]
 
 
 def gen_sel(rng, natoms, v, o, ints_ok=True):
@@ -295,6 +468,8 @@ def gen_sel(rng, natoms, v, o, ints_ok=True):
         ch = lambda: None if rng.random() < 0.35 else rng.randint(-natoms - 3, natoms + 3)
         c = rng.choice([None, None, 1, 1, 2, 3, -1, -1, -2, -3, 0] if rng.random() < 0.25 else [None, 1, 2, -1, -2])
         return ['S', ch(), ch(), c]
+    if 0.5 <= r < 0.56:           # boolean mask over the atoms (python list of bools / bool array)
+        return _gen_mask(rng, natoms)
     if r < 0.75:
         k = rng.choice([0, 1, 1, 2, 3, 3, 4, 5])
         l = [rng.randint(-natoms, natoms - 1) for _ in range(k)]
@@ -315,7 +490,59 @@ def gen_sys_case(rng):
             'sel0': gen_sel(rng, natoms, v, o, k == 0), 'sel1': gen_sel(rng, natoms, v, o, k == 0)}
 
 
+def min_edge(v):
+    return min(math.sqrt(sum(x * x for x in r)) for r in v)
+
+
+def gen_aimed_disp(rng, regime='exact'):
+    """displacement between a system and a copy in which every atom moved a SHORT way, roughly along one of the shortest
+    lattice combinations of a (mostly strongly sheared, non-reduced) cell, by more than half of that combination: the
+    periodic separation is then on the other side of the lattice vector although no atom moved half a cell edge."""
+    if regime == 'exact':
+        f = 2.0 ** gen_scale_exp(rng)
+        v0, o0 = gen_cell_scaled(rng, rng.choice(['sheared', 'sheared', 'strong', 'strong', 'general', 'lammps']), f)
+        grid = f / 64
+    else:
+        v0, o0, _ = gen_decimal_cell(rng, rng.choice(['sheared', 'sheared', 'sheared', 'general', 'hex', 'lammps']))
+        grid = None
+    pbc0 = gen_pbc(rng)
+    if sum(pbc0) < 2 and rng.random() < 0.8:
+        pbc0 = [True, True, rng.random() < 0.6]
+        rng.shuffle(pbc0)
+    n = rng.choice([1, 1, 2, 2, 3, 4])
+    where = rng.choice(['in', 'in', 'in', None])
+    if regime == 'exact':
+        pos0 = [gen_point(rng, v0, o0, where) for _ in range(n)]
+    else:
+        lo, hi = (0.0, 1.0) if where == 'in' else (-0.7, 1.7)
+        pos0 = [rel_to_cart([rng.uniform(lo, hi) for _ in range(3)], v0, o0) for _ in range(n)]
+    half = 0.5 * min_edge(v0)
+    pos1 = []
+    for p in pos0:
+        for attempt in range(6):
+            mv = aimed_move(rng, v0, pbc0, grid)
+            if math.sqrt(sum(x * x for x in mv)) < half or attempt == 5 and rng.random() < 0.3:
+                break
+        else:
+            mv = [rng.choice([0, 1, -1, 2]) * (grid or 1e-3 * half) for _ in range(3)]    # a tiny move
+        pos1.append([p[j] + mv[j] for j in range(3)])
+    v1, o1, pbc1 = v0, o0, list(pbc0)
+    r = rng.random()
+    if r < 0.15:
+        pbc1 = gen_pbc(rng)
+    if 0.1 < r < 0.25 and regime == 'exact':
+        g = rng.choice([1.125, 0.875])
+        v1 = [[x * g for x in rw] for rw in v0]          # a slightly strained copy of the cell
+    if rng.random() < 0.5:      # the moved system is the initial one
+        pos0, pos1 = pos1, pos0
+    return {'op': 'disp', 'regime': regime, 'ref': rng.choice(['final', 'final', 'initial', 'initial', 'default', None]),
+            'sys0': {'vects': v0, 'origin': o0, 'pbc': pbc0, 'pos': pos0},
+            'sys1': {'vects': v1, 'origin': o1, 'pbc': pbc1, 'pos': pos1}}
+
+
 def gen_disp_case(rng):
+    if rng.random() < 0.4:
+        return gen_aimed_disp(rng)
     f = 2.0 ** gen_scale_exp(rng)
     v0, o0 = gen_cell_scaled(rng, rng.choice(CELL_KINDS), f)
     v1, o1 = gen_cell_scaled(rng, rng.choice(CELL_KINDS), f)
@@ -347,6 +574,9 @@ def _sel_wire(sel):
         return 'S ' + ' '.join('_' if x is None else str(x) for x in sel[1:4])
     if k == 'L':
         return f'L {len(sel[1])} ' + ' '.join(map(str, sel[1]))
+    if k == 'M':      # a boolean mask of the right length is the index list of its True entries (numpy's documented rule)
+        idx = [i for i, b in enumerate(sel[1]) if b]
+        return f'L {len(idx)} ' + ' '.join(map(str, idx))
     if k == 'T':
         return f'T {len(sel[1])} ' + ' '.join(map(str, sel[1]))
     if k == 'Q':
@@ -409,6 +639,8 @@ def _py_sel(np, sel):
         return slice(sel[1], sel[2], sel[3])
     if k == 'L':
         return list(sel[1]) if sel[2] == 'py' else np.array(sel[1], dtype=np.int64)
+    if k == 'M':
+        return [bool(b) for b in sel[1]] if sel[2] == 'py' else np.array(sel[1], dtype=bool)
     return _as_input(np, sel[1], sel[2])
 
 
@@ -462,6 +694,19 @@ def _sqrt_ok(s, m2: Fraction):
     return abs(Fraction(s) ** 2 - m2) <= m2 * Fraction(8, 2 ** 53)
 
 
+def _same_expression(row, dist):
+    """the model's `dmag2` is `normSq` of the candidate `dvect` keeps (same fold, same expression): in IEEE double the
+    distance returned is then sqrt(x*x + y*y + z*z) of the returned row, three positive terms and a square root, i.e.
+    within 8 units of 2^-53 on the square -- whatever the cell, however close the two points."""
+    d = float(dist)
+    if not math.isfinite(d) or d < 0:
+        return False
+    s2 = sum(Fraction(float(x)) ** 2 for x in row)
+    if s2 < Fraction(1, 2 ** 900):          # squares underflow: no statement
+        return True
+    return abs(Fraction(d) ** 2 - s2) <= s2 * Fraction(8, 2 ** 53)
+
+
 def _scale(case):
     vals = [abs(x) for r in case['vects'] for x in r] + [abs(x) for p in case['pos0'] + case['pos1'] for x in p]
     return max(vals)
@@ -512,8 +757,12 @@ def compare(case, impl, outs):
                 if not tie and not all(abs(float(dv[i][j]) - float(mv[j])) <= delta for j in range(3)):
                     bad.append(('arr:dvect', f'pair {i}: am.dvect {dv[i].tolist()} vs model {[float(x) for x in mv]} '
                                 f'beyond {delta:.3g} (margin {float(margin) if margin is not None else None})'))
-                if abs(float(dm[i]) - math.sqrt(float(m2))) > 2 * delta + 2.0 ** -50 * math.sqrt(float(m2)):
+                if not abs(float(dm[i]) - math.sqrt(float(m2))) <= 2 * delta + 2.0 ** -50 * math.sqrt(float(m2)):
                     bad.append(('arr:dmag', f'pair {i}: am.dmag {float(dm[i])!r} vs model {math.sqrt(float(m2))!r}'))
+            if not _same_expression(dv[i], dm[i]):
+                bad.append(('arr:dmag-vs-own-dvect', f'pair {i}: am.dmag {float(dm[i])!r} is not the rounded length '
+                            f'{math.sqrt(sum(float(x) ** 2 for x in dv[i]))!r} of the row am.dvect returns {dv[i].tolist()} '
+                            f'(model: dmag2 is the squared length of the very candidate dvect keeps)'))
         return bad
     if op == 'sys':
         for name, out, width in (('dvect', outs[0], 3), ('dmag', outs[1], 1)):
@@ -684,14 +933,17 @@ def gen_oracle_sel(rng, natoms, v, o):
     if r < 0.55:
         a = rng.choice([None, None, 0, 1, -2, -natoms])
         b = rng.choice([None, None, natoms, natoms + 3, -1])
-        c = rng.choice([None, 1, 1, 2, -1]) if rng.random() < 0.5 else None
+        c = rng.choice([None, 1, 1, 2, -1, 3, -2]) if rng.random() < 0.6 else None
         return ['S', a, b, c]
+    if r < 0.61:
+        return _gen_mask(rng, natoms)
     if r < 0.8:
         k = rng.choice([1, 2, 2, 3, 4, natoms])
         return ['L', [rng.randint(-natoms, natoms - 1) for _ in range(k)], rng.choice(['py', 'np'])]
     k = rng.choice([1, 1, 2, natoms])
     return ['P', [gen_point(rng, v, o) for _ in range(k)], rng.choice(['array', 'list', 'tuple', 'flat' if k == 1 else 'array',
-                                                                        'strided', 'readonly'])]
+                                                                        'strided', 'readonly', 'rowstrided', 'colwindow',
+                                                                        'reversed', 'fortran'])]
 
 
 def sel_positions(np, pos, sel):
@@ -704,6 +956,8 @@ def sel_positions(np, pos, sel):
         return A[slice(sel[1], sel[2], sel[3])].tolist()
     if k == 'L':
         return A[np.array(sel[1], dtype=np.int64)].tolist() if sel[1] else []
+    if k == 'M':
+        return [A[i].tolist() for i, b in enumerate(sel[1]) if b]
     if k == 'P':
         return [list(map(float, p)) for p in sel[1]]
     raise ValueError(k)
@@ -833,6 +1087,28 @@ def gen_history(rng, oracle=False):
             add({'do': 'posset', 'sys': si, 'via': rng.choice(['slice', 'attr', 'prop']),
                  'pos': [gen_point(rng, v, o) for _ in sy['pos']]})
 
+    def moved_copy():
+        # a second System on the SAME Box whose atoms moved a short way along the shortest lattice combinations, then the
+        # displacement between the two (the usual use of displacement: before / after a relaxation)
+        si = rng.randrange(len(sh.systems))
+        sy = sh.systems[si]
+        v, o = sh.cell_of(si)
+        half = 0.5 * min_edge(v)
+        pos = []
+        for p_ in sy['pos']:
+            for attempt in range(6):
+                mv = aimed_move(rng, v, sy['pbc'], f / 64)
+                if math.sqrt(sum(x * x for x in mv)) < half:
+                    break
+            else:
+                mv = [rng.choice([0, 1, -1, 2]) * f / 64 for _ in range(3)]
+            pos.append([p_[j] + mv[j] for j in range(3)])
+        add({'do': 'newsys', 'box': sy['box'], 'pbc': list(sy['pbc']) if rng.random() < 0.8 else gen_pbc(rng),
+             'form': rng.choice(['tuple', 'list', 'array']), 'pos': pos})
+        sj = len(sh.systems) - 1
+        a, b = (si, sj) if rng.random() < 0.6 else (sj, si)
+        add({'do': 'disp', 's0': a, 's1': b, 'ref': rng.choice(['final', 'initial', 'default', None, 'final', 'initial'])})
+
     for _ in range(rng.randint(1, 2)):
         new_box()
     new_sys()
@@ -845,6 +1121,8 @@ def gen_history(rng, oracle=False):
             new_box()
         elif r < 0.08 and len(sh.systems) < 3:
             new_sys()
+        elif r < 0.14 and len(sh.systems) < 4:
+            moved_copy()
         elif r < 0.5:
             mutate()
             if rng.random() < 0.7:
@@ -1310,7 +1588,8 @@ def _viol(ctx, key, what, rep):
 STAT_KEYS = ('pairs', 'true_nearest_claimed', 'claimed_ortho', 'claimed_width', 'inside_no_claim',
              'inside_no_claim_not_nearest', 'outside_not_nearest', 'enumeration_skipped', 'lattice_points_enumerated',
              'one_to_many', 'many_to_one', 'many_to_many', 'refusals_checked', 'history_queries', 'history_steps',
-             'history_aborted', 'pairs_after_inplace_change', 'shift_beyond_one')
+             'history_aborted', 'pairs_after_inplace_change', 'shift_beyond_one', 'disp_cases',
+             'disp_all_moves_below_half_edge', 'disp_small_moves_not_direct', 'copy_pairs_near_zero')
 
 
 def new_stats():
@@ -1353,7 +1632,7 @@ def clauses(ctx, stats, pre, label, v, o, pbc, pairs, dv, dm, exact, rep, claim=
             nn = [Fraction(sum((ef[j] - d0[j]) * g.c[i][j] for j in range(3)), g.det) for i in range(3)]
             nn = [Fraction(round(x)) for x in nn]
             img = g.image(d0, [int(x) for x in nn])
-            if any(abs(float(ef[j] - img[j]) / g.D) > delta for j in range(3)):
+            if any(abs(ef[j] - img[j]) > Fraction(delta) * g.D for j in range(3)):
                 _viol(ctx, pre + 'image-form', f'{label(k)} = {row} is not (p1-p0) + n.vects for integer n '
                             f'(closest n = {[int(x) for x in nn]})', {**rep, 'pair': k})
                 continue
@@ -1370,7 +1649,7 @@ def clauses(ctx, stats, pre, label, v, o, pbc, pairs, dv, dm, exact, rep, claim=
         m = [int(x) for x in nn]
         e2 = _dot(e, e)
         # clause 2: not longer than any of the 27 candidates
-        slack = 0 if exact else int((8 * (math.sqrt(e2) / g.D + delta) * delta) * g.D * g.D) + 1
+        slack = 0 if exact else int(Fraction(8 * (math.sqrt(float(Fraction(e2, g.D * g.D))) + delta) * delta) * g.D * g.D) + 1
         if e2 > cbest[1] + slack:
             _viol(ctx, pre + 'min27', f'{label(k)} pbc={pbc} has squared length {float(Fraction(e2, g.D ** 2))!r}, candidate shift '
                         f'{cbest[0]} has {float(Fraction(cbest[1], g.D ** 2))!r}', {**rep, 'pair': k})
@@ -1460,6 +1739,11 @@ def oracle_pairs(ctx, case, stats):
     stats['one_to_many' if len(p0s) == 1 and len(p1s) > 1 else 'many_to_one' if len(p1s) == 1 and len(p0s) > 1
           else 'many_to_many'] += 1
     dv, dm = _rows(np, rdv[1], 3), _rows(np, rdm[1], 1)
+    if not exact:
+        me = min_edge(v)
+        stats['copy_pairs_near_zero'] += sum(1 for (a_, b_), row in zip(pairs, dv)
+                                             if sum(x * x for x in row) < (1e-9 * me) ** 2 and
+                                             sum((b_[j] - a_[j]) ** 2 for j in range(3)) > (0.1 * me) ** 2)
     tshift = case.get('translate')
     if tshift is not None and exact:
         T = np.array(tshift, dtype=float)
@@ -1471,6 +1755,60 @@ def oracle_pairs(ctx, case, stats):
             exact, rep, claim=len(pairs) <= 64)
 
 
+def oracle_disp(ctx, case, stats):
+    """displacement(system_0, system_1, box_reference) on the real code: atom by atom the periodic separation under the
+    reference system's cell and flags (image form, 27-candidate minimality, true nearest image where the property claims
+    it), the plain difference for None, ValueError for different atom counts."""
+    import numpy as np
+    import atomman as am
+    s0d, s1d, ref = case['sys0'], case['sys1'], case['ref']
+    s0 = _mk_system(am, np, s0d['vects'], s0d['origin'], s0d['pbc'], s0d['pos'])
+    s1 = _mk_system(am, np, s1d['vects'], s1d['origin'], s1d['pbc'], s1d['pos'])
+    r = _call(lambda: am.displacement(s0, s1)) if ref == 'default' else \
+        _call(lambda: am.displacement(s0, s1, box_reference=ref))
+    rep = {'op': 'disp', 'case': case}
+    exact = case.get('regime', 'exact') == 'exact'
+    refd = {'final': s1d, 'default': s1d, 'initial': s0d}.get(ref)
+    who = (f"displacement(system_0 pos={s0d['pos']}, system_1 pos={s1d['pos']}, box_reference={ref!r})" +
+           (f" [reference cell {refd['vects']}, pbc={refd['pbc']}]" if refd else ''))
+    stats['disp_cases'] += 1
+    if len(s0d['pos']) != len(s1d['pos']):
+        stats['refusals_checked'] += 1
+        if r != ('err', 'value'):
+            _viol(ctx, 'disp:refusal:natoms', who + f': different atom counts, ValueError expected, got {r[0]} {str(r[1])[:100]!r}', rep)
+        return
+    if r[0] == 'err':
+        _viol(ctx, 'disp:raises', who + f' raised {r[1]}', rep)
+        return
+    pairs = list(zip(s0d['pos'], s1d['pos']))
+    if not _shape_ok(np, r[1], len(pairs), 3, False):
+        _viol(ctx, 'disp:shape', who + f' returned shape {np.asarray(r[1]).shape} for {len(pairs)} atoms', rep)
+        return
+    rows = _rows(np, r[1], 3)
+    if not (np.array_equal(np.asarray(s0.atoms.pos), np.array(s0d['pos'], dtype=float).reshape(-1, 3)) and
+            np.array_equal(np.asarray(s1.atoms.pos), np.array(s1d['pos'], dtype=float).reshape(-1, 3))):
+        _viol(ctx, 'disp:input-modified', who + ' changed the positions of one of the systems', rep)
+    if refd is None:
+        for k, (p_, q_) in enumerate(pairs):
+            want = [float(q_[j]) - float(p_[j]) for j in range(3)]
+            if rows[k] != want:
+                _viol(ctx, 'disp:none', who + f' atom {k}: {rows[k]} is not the plain difference {want}', rep)
+                break
+        return
+    # coverage: every atom moved less than half the shortest cell edge, and yet some periodic separation is not the
+    # straight difference (the class a "small move" short cut gets wrong)
+    v = refd['vects']
+    half = 0.5 * min_edge(v)
+    direct = [[float(q_[j]) - float(p_[j]) for j in range(3)] for p_, q_ in pairs]
+    if all(math.sqrt(sum(x * x for x in d_)) < half for d_ in direct):
+        stats['disp_all_moves_below_half_edge'] += 1
+        combos = lattice_combos(v, refd['pbc'])
+        if any(sum((d_[j] + sv[j]) ** 2 for j in range(3)) < sum(x * x for x in d_) * (1 - 1e-9) for d_ in direct for sv in combos):
+            stats['disp_small_moves_not_direct'] += 1
+    clauses(ctx, stats, 'disp:', lambda k: who + f' atom {k}', v, refd['origin'], refd['pbc'], pairs, rows, None, exact, rep,
+            claim=True)
+
+
 NEAR_TIE_EPS = [0.0, 1e-16, -1e-16, 1e-15, 1e-14, -1e-14, 1e-13, -1e-13, 1e-12, 1e-11, -1e-11, 1e-10, 1e-9, -1e-9, 1e-8,
                 1e-7, -1e-6]
 
@@ -1478,6 +1816,7 @@ NEAR_TIE_EPS = [0.0, 1e-16, -1e-16, 1e-15, 1e-14, -1e-14, 1e-13, -1e-13, 1e-12, 
 def _oracle_case(rng, regime, kind=None, inside=None, big=None):
     shape = rng.choice(['mm', 'mm', 'mm', '1m', 'm1'])
     f32 = False
+    pbc_copy = None
     if regime == 'exact':
         f = 2.0 ** gen_scale_exp(rng)
         v, o = gen_cell_scaled(rng, kind or rng.choice(CELL_KINDS), f)
@@ -1500,12 +1839,23 @@ def _oracle_case(rng, regime, kind=None, inside=None, big=None):
             p0 = [[float(round(x)) for x in p] for p in p0]
         tr = [rng.randint(-64, 64) / 8.0 * f for _ in range(3)] if rng.random() < 0.5 else None
     else:
-        v, o = gen_float_cell(rng)
-        n = rng.randint(1, 4)
+        decimal = rng.random() < 0.45
+        v, o = gen_decimal_cell(rng)[:2] if decimal else gen_float_cell(rng)
+        n = big or rng.randint(1, 4)
         lo, hi = (0.0, 1.0) if rng.random() < 0.7 else (-1.0, 2.0)
         pt = lambda: rel_to_cart([rng.uniform(lo, hi) for _ in range(3)], v, o)
         p0, p1 = [pt() for _ in range(n)], [pt() for _ in range(n)]
-        if rng.random() < 0.3:           # near ties: half a cell vector +- a ladder of relative offsets
+        if decimal and rng.random() < 0.75:
+            # periodic copies of each other, up to 0 / 1 ulp / tiny offsets
+            pbc_copy = gen_pbc(rng)
+            if not any(pbc_copy):
+                pbc_copy[rng.randrange(3)] = True
+            p0, p1 = gen_copy_pairs(rng, v, o, pbc_copy, n)
+            if shape == '1m':
+                p1 = [[p0[0][j] + (p1[i][j] - p0[i][j]) for j in range(3)] for i in range(n)]
+            elif shape == 'm1':
+                p0 = [[p1[0][j] - (p1[i][j] - p0[i][j]) for j in range(3)] for i in range(n)]
+        elif rng.random() < 0.3:           # near ties: half a cell vector +- a ladder of relative offsets
             i = rng.randrange(3)
             eps = rng.choice(NEAR_TIE_EPS)
             p1[0] = [p0[0][j] + (0.5 + eps) * v[i][j] for j in range(3)]
@@ -1518,9 +1868,9 @@ def _oracle_case(rng, regime, kind=None, inside=None, big=None):
         p0 = p0[:1]
     elif shape == 'm1':
         p1 = p1[:1]
-    elif rng.random() < 0.04 and n >= 2:
+    elif rng.random() < 0.08 and n >= 2:
         p1 = p1 + [p1[0]] * rng.choice([1, 2])      # neither one-to-many nor many-to-many: must be refused
-    pbc = gen_pbc(rng)
+    pbc = pbc_copy or gen_pbc(rng)
     if not any(pbc) and rng.random() < 0.7:
         pbc[rng.randrange(3)] = True
     return {'regime': regime, 'vects': v, 'origin': o, 'pbc': pbc, 'p0': p0, 'p1': p1, 'translate': tr,
@@ -1536,6 +1886,8 @@ def _sel_text(sel):
         return f'slice({sel[1]}, {sel[2]}, {sel[3]})'
     if k == 'L':
         return str(list(sel[1]))
+    if k == 'M':
+        return f'mask {[bool(b) for b in sel[1]]}'
     return f'positions {sel[1]}'
 
 
@@ -1609,7 +1961,7 @@ def check_history(ctx, case, stats, upto=None):
             else:
                 v, o = sh.cell_of(rs)
                 clauses(ctx, stats, 'history:', lambda k2: hist + who + f' atom {k2}', v, o, sh.systems[rs]['pbc'], pairs, rows,
-                        None, True, rep, claim=False)
+                        None, True, rep, claim=len(pairs) <= 3)
                 stats['pairs_after_inplace_change'] += len(pairs) if changed else 0
             continue
         # arr / sys
@@ -1691,10 +2043,19 @@ def search(ctx, broken):
         plan.append(_oracle_case(rng, 'tol'))
     for it in range(ctx.n(6, 40) * mult):        # long arrays (bulk code paths): a few thousand pairs each
         plan.append(_oracle_case(rng, 'exact', big=rng.choice([130, 257, 600, 1025, 2100])))
+    for it in range(ctx.n(6, 40) * mult):        # long arrays of near-coincident periodic copies in decimal cells
+        plan.append(_oracle_case(rng, 'tol', big=rng.choice([40, 130, 300])))
     for case in plan:
         ctx.stats.case('oracle:' + case['regime'], (case['vects'], case['origin'], case['pbc'], case['p0'], case['p1']),
                        nontrivial=any(case['pbc']))
         oracle_pairs(ctx, case, stats)
+    for it in range(ctx.n(700, 10000) * mult):
+        case = gen_aimed_disp(rng, 'exact' if it % 4 else 'tol') if it % 5 else gen_disp_case(rng)
+        case.setdefault('regime', 'exact')
+        if case['ref'] in ('bogus', 'Final'):
+            case['ref'] = 'final'
+        ctx.stats.case('oracle:disp', repr((case['sys0'], case['sys1'], case['ref'])), nontrivial=case['ref'] is not None)
+        oracle_disp(ctx, case, stats)
     for _ in range(ctx.n(350, 5000) * mult):
         h = gen_history(rng, oracle=True)
         ctx.stats.case('oracle:history', repr(h['steps']), nontrivial=True)
@@ -1719,6 +2080,12 @@ def replay(ctx, payload):
     if r.get('op') == 'history':
         check_history(ctx, r['case'], stats, upto=r.get('step'))
         print(f"replay history (steps 0..{r.get('step')}):", 'still fails' if ctx.violations else 'passes now')
+        for f in ctx.violations[:3]:
+            print('  ', f.what[:600])
+        return
+    if r.get('op') == 'disp':
+        oracle_disp(ctx, r['case'], stats)
+        print('replay displacement:', 'still fails' if ctx.violations else 'passes now')
         for f in ctx.violations[:3]:
             print('  ', f.what[:600])
         return
